@@ -393,3 +393,38 @@ func VerifC15_ConnClose() {
 		verifapi.Cover("connection closed twice")
 	}
 }
+
+// ---- a peer that is being torn down is not handed to the data path ----------------------------
+//
+// A queued peer closes on its own (staleness, remote close); closing a live PeerConnection
+// takes time. A Pop that starts while that teardown is in progress must skip the dying peer
+// and hand over the healthy spare.
+
+var (
+	verifTearing = make(chan bool)
+	verifResume  = make(chan bool)
+)
+
+func verifPCCloseSlow(pc *webrtc.PeerConnection) error {
+	verifTearing <- true // the teardown has reached pc.Close()
+	<-verifResume
+	return nil
+}
+
+func VerifC15_PopDuringTeardown() {
+	t := &verifTongue{max: 2}
+	p, _ := NewPeers(t)
+	a, err := p.Collect()
+	verifapi.Assume(err == nil)
+	b, err := p.Collect()
+	verifapi.Assume(err == nil)
+	a.pc = new(webrtc.PeerConnection)
+	go func() { a.Close() }()
+	<-verifTearing
+	got := p.Pop()
+	close(verifResume)
+	verifapi.Quiesce()
+	verifapi.Cover("pop during a teardown")
+	verifapi.Assert(got != a, "a peer whose teardown is in progress is never handed to the data path")
+	verifapi.Assert(got == b, "the healthy spare is handed over instead")
+}
